@@ -22,6 +22,7 @@ PROPERTY_MODULES = {
     "C20": ["contracts.c20_copies"],
     "C04": ["contracts.c04_parser"],
     "C14": ["contracts.c14_filters"],
+    "C18": ["contracts.c18_redvar"],
 }
 
 EXTRACTION_DROPS = [
